@@ -34,6 +34,14 @@ LEVEL_NOTE = 'Trusted: bvf/refmodel.py Layouter.image; generator exclusions in e
 def _cases(draw, tier):
     cfg = draw(G.layout_isa(zones=True, blocks=True))
     b, feats = G.general_program(draw, cfg, max_steps=20, extra=['midlabel', 'midlabel'])
+    back = [ln for ln in b.lay.lines if ln['has_bytes'] and ln['size'] >= 1 and ln['zone'] == 'GLOBAL' and not ln['muted']]
+    if back and not b.dead and b.lay.mute == 0 and not b.lay.conds and draw(st.integers(0, 4)) == 0:
+        # an origin back to the first address of an earlier statement and a line without bytes there: the earlier
+        # statement's bytes stay in the image
+        ln = draw(st.sampled_from(back))
+        b.add({'t': 'org', 'e': b.lit(ln['addr'])})
+        b.add(draw(st.sampled_from([{'t': 'fill', 'n': ['num', 0, 'dec'], 'v': ['num', 7, 'dec']}, {'t': 'zero', 'n': ['num', 0, 'dec']}])))
+        feats.add('byte-less-line-at-the-address-of-an-earlier-statement')
     if draw(st.booleans()):
         # trailing lines that emit nothing, to exercise the default end
         for _ in range(draw(st.integers(1, 3))):
@@ -86,6 +94,10 @@ def _cases(draw, tier):
             start, end = end, start
         if min(x[0] for x in ext) == 0 and draw(st.integers(0, 5)) == 0:
             start, end = 0, 0        # the smallest explicit window
+        elif top <= 0xFFFF and draw(st.integers(0, 7)) == 0:
+            # an explicit window that ends beyond the last address of the address space (and of GLOBAL): it has the length
+            # asked for, and nothing but fill up there
+            end = top + draw(st.integers(1, 40))
     items = b.items
     if not b.lay.blocks and draw(st.integers(0, 11)) == 0:
         # the whole program muted: addresses are assigned, nothing reaches the image
